@@ -6,7 +6,8 @@ import gen_json as G
 
 STYLES = [("one", "one-line"), ("con", "consise"), ("pre", "pretty")]
 SEPS = [b"\n", b"\n", b"---\n", b";"]
-ARITH = ["(* . 1e200 1e200)", "(/ . 3)", "(+ . 0.1)", "(- 0 .)", "(* . . 5)", "(/ 1 .)", "(% . 7)", "(round (* . 1000))", "(* . -1e300 1e300)", "(- (* . 1e308 10) (* . 1e308 10))"]
+ARITH = ["(* . 1e200 1e200)", "(/ . 3)", "(+ . 0.1)", "(- 0 .)", "(* . . 5)", "(/ 1 .)", "(% . 7)", "(round (* . 1000))", "(* . -1e300 1e300)", "(- (* . 1e308 10) (* . 1e308 10))",
+         "(round (/ . -1e6))", "(ceil (/ . -1e6))", "(floor (/ . 1e6))", "(* . -0.0)", "(round (- 0 .))", "(abs (- 0 .))", "(- 0 (* . 0))"]
 
 
 def astral_free(data):
@@ -58,6 +59,9 @@ def check(tier, seed, replay=None):
                 vals = [("num", rnd.choice(["1", "3", "0.1", "1e200", "-2.5", "9007199254740993", "18446744073709551615", "1e-320", "7e22"])) for _ in range(3)]
                 data = b"\n".join(G.canonical(v) for v in vals) + b"\n"
                 extra, known = ["--select=%s =r" % rnd.choice(ARITH)], False
+                if rnd.random() < 0.3:
+                    # a name selected twice is one member (with the later value): never two members of one name
+                    extra.append("--select=%s =%s" % (rnd.choice(ARITH + [".", "\"x\""]), rnd.choice(["r", "r", "s"])))
             recipes.append({"utf8": utf8, "sep": sep.hex(), "known": known, "stdin": hexs(data), "extra": extra})
         # numbers around the edges of the exact integer range and of the double range, in every run
         edge = [2**64 - 1, 2**64, 2**64 + 1, 2**64 + 2049, 2 * 10**19, 99 * 10**18, 10**20, 10**21, -(2**63), -(2**63) - 1, -(2**63) - 1025, -95 * 10**17,
